@@ -16,8 +16,10 @@ import traceback
 from typing import Any, Callable, Dict, Iterable, List, Optional
 
 ROOT = os.path.dirname(os.path.dirname(os.path.abspath(__file__)))
-EVIDENCE_DIR = os.path.join(ROOT, "evidence")
-REPLAY_DIR = os.path.join(ROOT, "replays")
+# development aid (tools/mutate.sh, seeded-change evaluation): VERIF_SCRATCH=<dir> sends evidence and replay files of a run
+# against a scratch copy of the library to <dir> instead of /verif (never set by a registered command)
+EVIDENCE_DIR = os.path.join(os.environ["VERIF_SCRATCH"], "evidence") if os.environ.get("VERIF_SCRATCH") else os.path.join(ROOT, "evidence")
+REPLAY_DIR = os.path.join(os.environ["VERIF_SCRATCH"], "replays") if os.environ.get("VERIF_SCRATCH") else os.path.join(ROOT, "replays")
 FINDINGS_FILE = os.path.join(ROOT, "known_findings.json")
 
 
